@@ -9,6 +9,7 @@ corollaries (closed-form satisfiability, object counts obtained by brute-force
 enumeration of the combinatorial objects) must agree.
 """
 import itertools
+import os
 from math import comb
 
 from engine import tt, scope
@@ -118,11 +119,23 @@ def build_cli(case):
     if hasattr(msgmod, '_prefix'):
         msgmod._prefix = ''
     st = random.getstate()
+    tmpd = None
     try:
-        argv = [tool, '-q', '--seed', str(case.get('seed', 1))] + [str(x) for x in case['cli']]
+        words = [str(x) for x in case['cli']]
+        if case.get('files'):
+            import tempfile
+            tmpd = tempfile.mkdtemp(prefix='c01_')
+            for name, text in case['files'].items():
+                with open(os.path.join(tmpd, name), 'w') as f:
+                    f.write(text)
+            words = [w.replace('{D}', tmpd) for w in words]
+        argv = [tool, '-q', '--seed', str(case.get('seed', 1))] + words
         return mod.cli(argv, mode='formula')
     finally:
         random.setstate(st)
+        if tmpd is not None:
+            import shutil
+            shutil.rmtree(tmpd, ignore_errors=True)
 
 
 def cli_reference_case(case, S):
@@ -690,10 +703,13 @@ def cli_cases(tier, seed):
     tools = ('cnfgen', 'pbgen')
     flagsets = [[], ['--functional'], ['--onto'], ['--functional', '--onto']]
 
-    def add(fam, argv, ref, rnd=False, tools_=tools):
+    def add(fam, argv, ref, rnd=False, tools_=tools, files=None):
         for tool in tools_:
             for sd in (seeds if rnd else (1,)):
-                cs.append({'fam': fam, 'cli': argv, 'tool': tool, 'seed': sd, 'ref': ref})
+                c = {'fam': fam, 'cli': argv, 'tool': tool, 'seed': sd, 'ref': ref}
+                if files:
+                    c['files'] = files
+                cs.append(c)
     for fl in flagsets:
         f, o = '--functional' in fl, '--onto' in fl
         for N in range(0, 4):
@@ -715,6 +731,25 @@ def cli_cases(tier, seed):
             add('php', ['php'] + spec + fl,
                 {'kind': 'gphp', 'P': L, 'H': Rr, 'deg': deg, 'functional': f, 'onto': o},
                 rnd=spec[0] in ('glrd', 'regular', 'glrp', 'glrm'))
+    # bipartite graphs read from files (isolated vertices on both sides included)
+    for (L, Rr) in ((1, 1), (2, 1), (1, 2), (2, 2), (3, 2), (2, 3)):
+        for es in scope.bipartite_graphs(L, Rr):
+            es = [tuple(e) for e in es]
+            if (L, Rr) in ((3, 2), (2, 3)) and len(es) not in (0, 1, 2, L * Rr):
+                continue
+            kth = '%d\n' % (L + Rr) + ''.join(
+                '%d : %s0\n' % (u, ''.join('%d ' % (L + v) for (a, v) in es if a == u))
+                for u in range(1, L + 1))
+            mat = '%d %d\n' % (L, Rr) + ''.join(
+                ' '.join('1' if (u, v) in es else '0' for v in range(1, Rr + 1)) + '\n'
+                for u in range(1, L + 1))
+            for fmt, text in (('kthlist', kth), ('matrix', mat)):
+                fl = flagsets[(len(es) + L) % 4]
+                add('php', ['php', fmt, '{D}/g.txt'] + fl,
+                    {'kind': 'gphp', 'P': L, 'H': Rr, 'deg': None, 'functional': '--functional' in fl,
+                     'onto': '--onto' in fl}, files={'g.txt': text})
+                add('subsetcard', ['subsetcard', '{D}/g.' + fmt],
+                    {'kind': 'subsetcard', 'L': L, 'R': Rr, 'm': len(es)}, files={'g.' + fmt: text})
     for M in range(1, 4):        # the command line wants positive numbers here
         for N in range(1, 6):
             if M * max(0, (N - 1).bit_length()) <= 12:
